@@ -36,7 +36,7 @@ fi
 echo "demo without patch exit=$R0 (want 0); build=$RB (want 0); demo with patch exit=$R1 (want !=0); existing-test failures with patch: [${RT}]"
 RES=""
 for P in "$@"; do
-  ( cd /verif && ./bin/symgo -prop $P -tier ${TIER:-quick} ${RUNRE:+-run $RUNRE} -repo $WT -out /tmp/seedout/$ID/$P -evidence /tmp/seedout/$ID/$P.json > $LOG/check_$P.log 2>&1 ); RC=$?
+  ( cd /verif && ./bin/symgo -prop $P -tier ${TIER:-quick} -deadline ${DEADLINE:-600s} ${RUNRE:+-run $RUNRE} -repo $WT -out /tmp/seedout/$ID/$P -evidence /tmp/seedout/$ID/$P.json > $LOG/check_$P.log 2>&1 ); RC=$?
   V=$(grep -c '^VIOLATION' $LOG/check_$P.log)
   echo "check $P on seed $ID: exit=$RC violations=$V $(grep -m2 'assertion=' $LOG/check_$P.log | tr '\n' ' ')"
   RES="$RES $P:exit=$RC:violations=$V"
